@@ -5,7 +5,7 @@
    recursion skeleton of the parsers' dangerous spots, with outcome Done | Fail | Panic, following
    the code after this property's fix: commits.  "Never Panic" for the class reader as a whole is
    NOT claimed (see stated_not_proved in props/c16.py); the harness covers it by search. *)
-From FB Require Import C16.Model C16.ModelText C16.ModelEv C16.SitesGen C16.Theory C16.Theory2 C16.Theory3 C16.TheoryText C16.TheoryText2 C16.TheoryRD C16.TheoryEv C16.TheorySites C18.Model.
+From FB Require Import C16.Model C16.ModelText C16.ModelEv C16.SitesGen C16.Theory C16.Theory2 C16.Theory3 C16.TheoryText C16.TheoryText2 C16.TheoryRD C16.TheoryEv C16.TheorySites C16.TheorySitesReader C16.TheoryDesc C18.Model.
 
 (* Labels: a local-variable range is computed without overflow ... *)
 Theorem C16_no_panic_label_range : forall code_len start len, get_or_create_range code_len start len <> Panic.
@@ -150,6 +150,19 @@ Theorem C16_no_panic_descriptors : forall kind s, desc_out kind s <> Panic.
 Proof. exact desc_no_panic. Qed.
 Print Assumptions C16_no_panic_descriptors.
 
+(* ... and the one arithmetic operation in them, the u8 dimension counter of read_field_type
+   (`array_dimension += 1`), never overflows because of the `== 255` check in front of it: the counter that
+   can panic is the bracket count of the (panic-free by construction) C18 model, for every string *)
+Theorem C16_no_panic_array_dimension : forall s dim, dim <= 255 ->
+  array_dims true s dim <> Panic /\ array_dims true s dim = res_to_out (count_brackets s dim)
+  /\ forall d r, array_dims true s dim = Done (d, r) -> d <= 255.
+Proof. exact array_dims_spec. Qed.
+Print Assumptions C16_no_panic_array_dimension.
+
+Theorem C16_unguarded_array_dimension_overflows : array_dims_unguarded_witness.
+Proof. exact array_dims_unguarded_witness_holds. Qed.
+Print Assumptions C16_unguarded_array_dimension_overflows.
+
 (* The model can express the failures: the code before the fixes reaches Panic on the witnesses *)
 Theorem C16_unrepaired_code_panics : unrepaired_witnesses.
 Proof. exact unrepaired_witnesses_hold. Qed.
@@ -232,6 +245,77 @@ Print Assumptions C16_text_panic_sites_match.
 Theorem C16_writer_panic_sites_match : map strip writer_model = writer_sites.
 Proof. exact writer_sites_match. Qed.
 Print Assumptions C16_writer_panic_sites_match.
+
+(* the class reader's own files: class_reader.rs, class_reader/pool.rs, class_reader/labels.rs, the ClassRead
+   trait of lib.rs, jstring, macros (the newtypes), the descriptor parsers, the name predicates, the
+   tree-building visitors — every slice / index, unwrap family call, panicking macro, unsafe, arithmetic
+   operation, `as` cast, allocation call, loop, recursion, checked conversion AND every placeholder of every
+   formatting macro (display / debug / other trait) is in the hand-written table with its justification *)
+Theorem C16_reader_panic_sites_match : map strip reader_model = reader_sites.
+Proof. exact reader_sites_match. Qed.
+Print Assumptions C16_reader_panic_sites_match.
+
+(* the `{}` placeholders (Display, LowerHex) of the text readers and of the class writer *)
+Theorem C16_text_fmt_sites_match : map strip text_fmt_model = text_fmt_sites.
+Proof. exact text_fmt_sites_match. Qed.
+Print Assumptions C16_text_fmt_sites_match.
+
+Theorem C16_writer_fmt_sites_match : map strip writer_fmt_model = writer_fmt_sites.
+Proof. exact writer_fmt_sites_match. Qed.
+Print Assumptions C16_writer_fmt_sites_match.
+
+(* Display of duke's name / descriptor newtypes returns fmt::Error on an unpaired surrogate, which makes
+   format! / anyhow! panic: every `{}` of the three inventories is classified as an integer, a lossy
+   JavaString or a &str — except inside the Debug impl of PoolRead ... *)
+Theorem C16_fallible_display_only_in_pool_debug :
+  forallb display_row_ok reader_model = true /\ forallb display_row_ok text_fmt_model = true /\ forallb display_row_ok writer_fmt_model = true.
+Proof. exact fallible_display_only_in_pool_debug. Qed.
+Print Assumptions C16_fallible_display_only_in_pool_debug.
+
+(* ... which no placeholder of the reader reaches *)
+Theorem C16_nothing_formats_the_pool : forallb not_the_pool reader_model = true.
+Proof. exact nothing_formats_the_pool. Qed.
+Print Assumptions C16_nothing_formats_the_pool.
+
+Theorem C16_reader_debug_placeholders_total : forallb debug_row_ok reader_model = true.
+Proof. exact debug_rows_total. Qed.
+Print Assumptions C16_reader_debug_placeholders_total.
+
+(* no unwrap / expect anywhere in the reader's files; the only slices are the two cursor slices of read_code *)
+Theorem C16_reader_has_no_unwrap_or_index : forallb reader_row_safe_shape reader_model = true.
+Proof. exact reader_has_no_unwrap. Qed.
+Print Assumptions C16_reader_has_no_unwrap_or_index.
+
+(* the arithmetic behind the GUARDED / BOUNDED / UNREACHABLE entries of the reader's table *)
+Theorem C16_reader_u16_casts_preserve : forall x, x <= 65535 -> as_u16 x = x.
+Proof. exact as_u16_small. Qed.
+Print Assumptions C16_reader_u16_casts_preserve.
+
+Theorem C16_reader_align_mask_lt_4 : forall m, N.land m 3 < 4.
+Proof. exact reader_align_mask_lt_4. Qed.
+Print Assumptions C16_reader_align_mask_lt_4.
+
+(* iload_0..aload_3 / istore_0..astore_3: no u8 underflow / overflow, the computed opcode is one of the five
+   the inner match lists, and the writer's short form is its inverse *)
+Theorem C16_reader_short_forms_decode : short_decode_ok 21 26 = true /\ short_decode_ok 54 59 = true.
+Proof. exact reader_short_forms_ok. Qed.
+Print Assumptions C16_reader_short_forms_decode.
+
+Theorem C16_reader_frame_type_arith : forall t,
+  (64 <= t <= 127 -> 64 <= t /\ t - 64 < 64) /\
+  (248 <= t <= 250 -> t <= 251 /\ 1 <= 251 - t <= 3) /\
+  (252 <= t <= 254 -> 251 <= t /\ 1 <= t - 251 <= 3).
+Proof. exact reader_frame_arith_ok. Qed.
+Print Assumptions C16_reader_frame_type_arith.
+
+(* a lookupswitch accepted by the first pass has its pairs in the code array: the second pass's
+   `Vec::with_capacity(npairs)` is bounded by the input *)
+Theorem C16_reader_lookupswitch_npairs_small : forall count cl p c1 c' e,
+  N.of_nat (length (rest c1)) <= 65535 ->
+  insn_operands count cl p 171 c1 = Done (c', e) ->
+  exists n, lookupswitch_npairs cl p c1 = Done n /\ (0 <= n <= 8190)%Z /\ (8 * n <= Z.of_nat (length (rest c1)))%Z.
+Proof. exact reader_lookupswitch_npairs_small. Qed.
+Print Assumptions C16_reader_lookupswitch_npairs_small.
 
 (* the class writer's conversions: checked ones are an error, the unchecked ones sit under guards
    that make them value preserving / overflow free *)
